@@ -4,6 +4,9 @@
 // *contracts*: callers are checked against them, the bodies are proved where stated.
 // ============================================================================================
 
+// the verified platform: 64-bit (tevec's integer products of window counts are sized for it)
+global size_of usize == 8;
+
 // ---- panics and errors (R11)
 pub uninterp spec fn panic_allowed() -> bool;
 // A reachable panic is an obligation unless the enclosing contract declared it (`requires P ==> panic_allowed()`).
@@ -106,13 +109,14 @@ pub trait RollingFn<T, OT>: Sized {
     spec fn hist(&self) -> Seq<Call<T, OT>>;
     spec fn inv(&self) -> bool;
     spec fn elem_ok(v: T) -> bool;
+    spec fn cap_len() -> nat;                  // longest series the closure's integer arithmetic is proved for (A-LEN), <= usize::MAX
 
     fn call(&mut self, rm: Option<T>, v: T) -> (r: OT)
         requires
             old(self).inv(),
             fifo_ok(old(self).hist(), rm, v),            // #C02 callback_gets_fifo_removal
             Self::elem_ok(v),
-            old(self).hist().len() < usize::MAX,
+            old(self).hist().len() < Self::cap_len(), Self::cap_len() <= usize::MAX,
         ensures
             final(self).inv(),
             final(self).cfg() == old(self).cfg(),
@@ -149,7 +153,8 @@ pub open spec fn out_ok<T, OT>(w: Map<int, OT>, h: Seq<Call<T, OT>>) -> bool {
 pub open spec fn outs<T, OT>(h: Seq<Call<T, OT>>) -> Seq<OT> { Seq::new(h.len(), |i: int| h[i].out) }
 
 pub open spec fn all_elem_ok<T, OT, F: RollingFn<T, OT>>(x: Seq<T>) -> bool {
-    forall|i: int| 0 <= i < x.len() ==> F::elem_ok(#[trigger] x[i])
+    &&& x.len() <= F::cap_len() <= usize::MAX
+    &&& forall|i: int| 0 <= i < x.len() ==> F::elem_ok(#[trigger] x[i])
 }
 
 // ---- two-series drivers: the callback sees pairs
